@@ -341,9 +341,9 @@ func (t *TrakBox) SetWvttDescriptor(config string) error {
 		config = "WEBVTT"
 	}
 	vttC := VttCBox{Config: config}
-	wvtt := WvttBox{}
+	wvtt := NewWvttBox() // With data_reference_index = 1
 	wvtt.AddChild(&vttC)
-	t.Mdia.Minf.Stbl.Stsd.AddChild(&wvtt)
+	t.Mdia.Minf.Stbl.Stsd.AddChild(wvtt)
 	return nil
 }
 
